@@ -229,10 +229,7 @@ class Circuit:
         # When grouping use unpacked circuit, otherwise a copy of the original
         circuit = circuit_copy if group else circuit.copy()
         spec = circuit.__circuit_spec
-        # Check circuit size is valid
         n_heralds = len(circuit.heralds["input"])
-        if mode + circuit.n_modes - n_heralds > self.n_modes:
-            raise ModeRangeError("Circuit to add is outside of mode range")
 
         # Include any existing internal modes into the circuit to be added,
         # these are unchanged by the added circuit
@@ -246,6 +243,9 @@ class Circuit:
             if 0 <= target_mode < circuit.n_modes:
                 spec = circuit._add_empty_mode(spec, target_mode)
                 provisional_swaps[target_mode] = target_mode
+        # Check circuit size is valid, including the pass-through modes
+        if mode + circuit.n_modes - n_heralds > self.n_modes:
+            raise ModeRangeError("Circuit to add is outside of mode range")
         # Then add new modes for heralds from circuit and also add swaps to
         # enforce that the input and output herald are on the same mode
         for m in sorted(circuit.heralds["input"]):
